@@ -258,6 +258,18 @@ chk("C18",
     gomaxprocs=[2],
     )
 
+chk("C20",
+    level="exploration",
+    technique="counting-reader monitor: a byte-counting io.Reader (incl. endless readers with a hard cap) feeds real Read/Connection under every MaxEventSize / Connection.Buffer setting; delivered events, the end condition and the number of bytes pulled past the last completed event are compared with token sizes computed from the text and with the reference interpreter; race detector/checkptr on",
+    level_text="Streams are assembled from blocks whose token size (preceding blank lines + block + blank line) sits at 1, 2, 3, around limit-5..limit+4, limit/2, 2*limit, 4095..4097, 8191/8193, 32767/32769, 65535..65537, plus runs of more than `limit` bytes of tiny keep-alive blocks, with and without an unterminated tail, under whole / 1-byte / 4096 / 4097 / random chunkings, for 9 ReadConfig and 8 Connection.Buffer settings (nil and non-nil buffers, cap above and below max). Endless streams (one endless line, blank lines, comment lines, data lines, CR runs) follow every prefix. The monitor requires: all tokens <= limit-3 => delivered completely and intact with the reference's end condition; a token >= limit+3 => a non-nil error, exactly the events that complete before it, and at most `limit` bytes pulled past the end of the last completed token; endless streams are stopped by an error before the reader's hard cap (4*limit). Tokens within 3 bytes of the limit are recorded, not judged.",
+    level_note="limit = MaxEventSize (64 KiB default) for Read and max(maxSize, cap(buf)) for Connection.Buffer (bufio.Scanner's documented rule). Byte-at-a-time chunking is combined only with limits <= 4096 because the split function rescans a token from its start on every read.",
+    rule="cases = seeded (configuration, block sizes, chunking) triples + the exhaustive product configuration x endless unit x prefix; non-trivial = every case (each is judged in one of the classes below/oversized/endless or counted as boundary); distinct = distinct (configuration, chunking, stream shape)",
+    assumptions=["reference interpreter correct", "bufio.Scanner semantics as documented"],
+    nbatch={"quick": 16, "thorough": 16},
+    timeout_s={"quick": 900, "thorough": 5400},
+    floors={"quick": {"executions": 10000, "judged_below_limit": 3000, "judged_oversized": 1500, "judged_endless": 300}},
+    )
+
 not_built = {
 }
 
